@@ -39,6 +39,9 @@ out += ["", "%d runs of seeded changes against checks (a change seeded for C01 i
         "* `C12-combine-exact-threshold` (`combine` refuses exactly-threshold share sets): `combine` was only run with all node directories; it is now run on every exactly-threshold subset (n ≤ 5), all, threshold+1 and threshold−1 directories, with model function `combineAccepts` and theorems.",
         "* `C08-verify-memo-ignores-message` (memo of successful verifications keyed without the message): every substitution built a new signature; the driver now re-verifies the SAME signature bytes against other messages/keys in both orders (`vfy` ops) and `verify_stateless` states the obligation.",
         "* `C01-*` (single-component slips: sigagg publishing after a failed verification; parsigex forwarding the unfiltered set): not reachable in the one-validator attester cluster simulator; C01's check now also runs the aggregator (C09) and admission (C10) streams and reports their safety monitors under C01.",
+        "* `C16-full-buffer-retry-stall` (deadliner stuck for good after one overflow of its 10-slot output buffer): the generator split clock advances so that the buffer never overflowed; it now contains overflow probes (11–22 duties, many sharing a deadline, expire in one advance) followed by ordinary registrations that must still be reported.",
+        "* `C17-v2-notify-after-lookup` (V2 reader re-reads the notify channel after its lookup: a Store in between is a lost wake-up): needs one exact interleaving; new op `awaitst` runs the Store of the awaited key from inside the reader's own `ctx.Done()` call (the 1st/2nd/3rd call, i.e. inside the lookup's lock or exactly between lookup and wait); the model outcome is that of `await; store`.",
+        "* `C01-parsigex-forward-unfiltered-set` additionally needed mixed batches (a valid entry for one validator and an invalid entry for another in ONE message) early in the admission stream; they are now part of the systematic sweep.",
         ""]
 txt = "\n".join(out)
 p = '/verif/DESIGN.md'
